@@ -5,7 +5,7 @@ from fvsym.engine import Ob
 from fvsym.rt import *  # noqa
 
 BOUNDS = {
-    "quick": "pairs of trees over independent skeletons (1-level 0..2 elements; 2-level [], [0], [1], [1,0], [1,1], [2]) with symbolic coordinates and values: "
+    "quick": "pairs of trees over independent skeletons (1-level 0..2 elements; 2-level [], [0], [1], [1,0], [1,1], [2]; one 3-level pair [[2]] x [[1]]) with symbolic coordinates and values: "
              "A == B <=> content(A) = content(B), symmetry, reflexivity, isEmpty, countValues, nonEmpty, deepcopy; transitivity on triples of 1-level <=2-fibers and "
              "[1]-trees; Tensor == with equal and different rank ids",
     "thorough": "pairs up to 3 elements / [2,1] x [1,1] / depth-3 [[1]] x [[1],[0]]; triples with 2-level [1,1]",
@@ -109,6 +109,24 @@ def eq_tensor(sk, *xs):
     return True
 
 
+def count_update(sk, *xs):
+    """the count (and emptiness) follows the content through later in-place updates: nothing may be remembered from an earlier query"""
+    a, pos, _ = build_tree(sk["a"], xs)
+    d = sk["depth"]
+    ta = Tensor.fromFiber(rank_ids_for(d), a)
+    if ta.countValues() != len(content(ta.getRoot())):
+        return fail("Tensor.countValues")
+    e0 = ta.getRoot().isEmpty()
+    r = ta.getPayloadRef(*xs[pos:pos + d])
+    r <<= xs[pos + d]
+    c1 = content(ta.getRoot())
+    if ta.countValues() != len(c1) or ta.getRoot().countValues() != len(c1):
+        return fail("countValues after an in-place update does not describe the current content")
+    if ta.getRoot().isEmpty() != (len(c1) == 0):
+        return fail("isEmpty after an in-place update does not describe the current content")
+    return True
+
+
 def _pp(trees, tags):
     ps, pre = [], []
     for t, tag in zip(trees, tags):
@@ -145,8 +163,8 @@ def obligations(tier):
     for a, b in [([1, 0], [1]), ([1], [1, 1])]:
         ps, pre = _pp([a, b], "xy")
         obs.append(Ob("pair-owned/%s-%s" % (_nm(a), _nm(b)), "eq_pair", dict(a=a, b=b, owned=True, depth=2), ps, pre))
-    if not q:
-        for a, b in [([[1]], [[1], [0]]), ([[1]], [[1]]), ([[1, 0]], [[1]])]:
+    for a, b in ([([[2]], [[1]])] if q else [([[2]], [[1]]), ([[1]], [[1], [0]]), ([[1]], [[1]]), ([[1, 0]], [[1]])]):
+        if True:
             ps, pre = _pp([a, b], "xy")
             obs.append(Ob("pair/%s-%s" % (_nm(a), _nm(b)), "eq_pair", dict(a=a, b=b), ps, pre))
     tri = [(1, 1, 1), (2, 1, 1), (1, 2, 1), (1, 1, 2), (0, 1, 1), (1, 0, 1), ([1], [1], [1]), ([1, 0], [1], [0, 1])]
@@ -163,4 +181,6 @@ def obligations(tier):
         obs.append(Ob("tensor-shapes/%s-%s" % (_nm(a), _nm(b)), "eq_tensor", dict(a=a, b=b, depth=tree_depth(a), shapes=True), ps, pre + bound_pre(cn + cn2, 0, 4)))
         if tree_depth(a) == 1:
             obs.append(Ob("tensor2/%s-%s" % (_nm(a), _nm(b)), "eq_tensor", dict(a=a, b=b, depth=tree_depth(a), part=2), ps, pre))
+        pa = names("x", tree_params(a))
+        obs.append(Ob("count-update/%s" % _nm(a), "count_update", dict(a=a, depth=tree_depth(a)), pa + names("q", tree_depth(a)) + ["w"], tree_pre(a, pa)[0]))
     return obs
